@@ -61,22 +61,22 @@ CLAIMED["C01"] = ("exploration",
  "trusted: refclass (model, encoder, parser; javap cross-checked on the corpus), proj.rs, SimReader; generator admissibility rewrites listed in evidence assumptions",
  "DESIGN.md section 4 C01")
 CLAIMED["C07"] = ("exploration",
- "deterministic simulation: the input jar served through a simulated Read+Seek medium (SimJar: chunking, EINTR; EIO, torn jar, flipped bytes in entry data / central directory, failing seek, on the super-class provider's open and/or remap's open); output classes observed only through the independent parser and compared with an independent reference renaming of the input's model",
- "Seeded search over (jar of 1-8 linked generated classes + corpus classes + resources, mapping set through the real remapper_b with the jar's super-class provider: partial mappings, package moves, inner classes, members inherited inside/outside the jar; reader schedule; 0-2 faults). T0: every class entry is stored under its remapped name, parses, shows no new structural problem and equals the reference renaming at every reference-carrying position; non-class entries byte-equal. T1: identical entries. T2: Err, or Ok equal to T0 (intact bytes) or to the reference over the delivered bytes; no panic/runaway; healthy retry equals T0. Sampling, not proof.",
+ "deterministic simulation: the input jar served through a simulated Read+Seek medium (SimJar: chunking, EINTR; EIO, torn jar, flipped bytes in entry data / central directory, failing seek, on the super-class provider's open and/or remap's open); output classes observed only through the independent parser and compared with an independent reference renaming of the input's model; the remapped jar is written out again through a simulated Write+Seek sink (hook H3: short writes, EINTR, ENOSPC, EIO, Ok(0), flush error) and through put_to_file on a simulated directory (fresh file, /dev/full, missing parent directory, over a longer file; re-opened through FileJar, then torn and removed). The same entries are also offered through an entry-level jar seam (LazyJar: impl Jar without the zip crate; every entry operation - look-up, classification, class read/visit/write - is an event that can fail once or from some point on; classes are parsed from a simulated reader when asked for): an answer given after a failed entry operation must be the answer for the intact jar.",
+ "Seeded search over (jar of 1-8 linked generated classes + corpus classes + resources, mapping set through the real remapper_b with the jar's super-class provider: partial mappings, package moves, inner classes, members inherited inside/outside the jar; reader schedule; 0-2 faults). T0: every class entry is stored under its remapped name, parses, shows no new structural problem and equals the reference renaming at every reference-carrying position; non-class entries byte-equal. T1: identical entries. T2: Err, or Ok equal to T0 (intact bytes) or to the reference over the delivered bytes; no panic/runaway; healthy retry equals T0. Sink: short writes succeed, any Ok leaves a jar in the sink that re-opens to exactly the to_mem entries, put_to_file onto a full device or below a missing directory fails. Sampling, not proof.",
  "trusted: refremap (reference remapper + renamer over Sem with exhaustive destructuring), refclass, SimJar, the zip crate as assembler/re-opener; lookup rules adopted from remapper.rs where the property is silent are listed in evidence assumptions",
  "DESIGN.md section 4 C07")
 CLAIMED["C13"] = ("exploration",
- "deterministic simulation: client and server jars served through two simulated Read+Seek media (chunking, EINTR; EIO, torn jar, flipped bytes, failing seek on either or both sides); merged classes observed through the independent parser and judged by a reference union written from the property statement",
+ "deterministic simulation: client and server jars served through two simulated Read+Seek media (chunking, EINTR; EIO, torn jar, flipped bytes, failing seek on either or both sides); merged classes observed through the independent parser and judged by a reference union written from the property statement. The same entries are also offered through an entry-level jar seam (LazyJar: impl Jar without the zip crate; every entry operation - look-up, classification, class read/visit/write - is an event that can fail once or from some point on; classes are parsed from a simulated reader when asked for): an answer given after a failed entry operation must be the answer for the intact jar.",
  "Seeded search over (pairs of jars: disjoint / identical / re-encoded / differing classes whose interface, field and method lists are equal, prefixes, suffixes, interleavings, permutations or subsets of each other; resources, manifest, signature files, server library packages; reader schedules; 0-2 faults). T0: every entry exactly once minus signature files and bundled server libraries, identical classes byte-identical, one-sided classes and members marked with their side, shared members unmarked, member order of each side kept when the orders are compatible, member bodies from the side they came from. T1: identical observation. T2: Err, or Ok equal to the reference over the delivered bytes; healthy retry equals T0. Sampling, not proof.",
  "trusted: refmerge, refclass, SimJar, zip crate; choices adopted from merge.rs where the statement is silent (client wins on conflicts, fixed manifest) are evidence assumptions",
  "DESIGN.md section 4 C13")
 CLAIMED["C14"] = ("exploration",
- "deterministic simulation: the jar served through a simulated Read+Seek medium and the nests table delivered as (possibly torn / flipped) text; nested jar observed through the independent parser; jar side, mappings side (apply / undo) and table translation judged by a reference nesting model",
+ "deterministic simulation: the jar served through a simulated Read+Seek medium and the nests table delivered as (possibly torn / flipped) text; nested jar observed through the independent parser; jar side, mappings side (apply / undo) and table translation judged by a reference nesting model. The same entries are also offered through an entry-level jar seam (LazyJar: impl Jar without the zip crate; every entry operation - look-up, classification, class read/visit/write - is an event that can fail once or from some point on; classes are parsed from a simulated reader when asked for): an answer given after a failed entry operation must be the answer for the intact jar.",
  "Seeded search over (nests table: three kinds, chains of depth 1-4, missing enclosing classes, absent classes, entries violating the rule of their kind, custom/derived inner names, C__D names; matching jar of linked generated classes; two-namespace mapping set; reader schedule; 0-2 jar faults; table text faults). T0: exactly the applicable nests renamed transitively, every reference rewritten, InnerClasses / EnclosingMethod recorded, missing enclosing classes created, entry names follow class names; apply_nests_to_mappings agrees, undo(apply(m)) = m, jar and mappings agree on class names when all entries apply, remap_nests keeps every nest in the target namespace. T1: identical. T2: Err or the reference result on the delivered bytes; table reader rule. Sampling, not proof.",
  "trusted: refnest, refclass, refmap, SimJar; plans whose created enclosing class is itself listed are executed but not judged (the property does not decide); see evidence assumptions",
  "DESIGN.md section 4 C14")
 CLAIMED["C15"] = ("exploration",
- "deterministic simulation: main and library jars served through simulated Read+Seek media (chunking, EINTR; EOF, flipped jar bytes, EIO, failing seek, class-file bit flips aimed at attributes the partial visitor skips); detected bridge pairs and the produced mapping set judged by a reference bridge predicate and naming model",
+ "deterministic simulation: main and library jars served through simulated Read+Seek media (chunking, EINTR; EOF, flipped jar bytes, EIO, failing seek, class-file bit flips aimed at attributes the partial visitor skips); detected bridge pairs and the produced mapping set judged by a reference bridge predicate and naming model. The same entries are also offered through an entry-level jar seam (LazyJar: impl Jar without the zip crate; every entry operation - look-up, classification, class read/visit/write - is an event that can fail once or from some point on; classes are parsed from a simulated reader when asked for): an answer given after a failed entry operation must be the answer for the intact jar.",
  "Seeded search over (type universe, 1-4 bridge families of 1-4 levels across main / library / nowhere, 27 bridge-site templates incl. 20 near misses, calamus and named mapping sets naming or not naming bridge / delegate / super declarations; reader schedules; 0-2 faults). T0: get_specialized_methods equals the reference predicate; add_specialized_methods_to_mappings gives the delegate the inherited target name of the bridge and leaves every other entry unchanged. T1: identical. T2: Err or the reference over the delivered archives; healthy retry equals T0. Damaged jars whose headers form a cyclic hierarchy run in a child process and are only counted (outside the quantifier). Sampling, not proof.",
  "trusted: refbridge, refclass, refmap, SimJar; where the statement is silent (undefined classes, lookup order) the code's answer is adopted and counted (evidence assumptions)",
  "DESIGN.md section 4 C15")
